@@ -414,7 +414,19 @@ func (e *Eng) storeLoc(st *State, base string, idxs []string, v Val) {
 	e.heapSet(st, base, nestStore(e.heapGet(st, base), idxs, v.T))
 }
 
-func (e *Eng) elemBase(t types.Type) string { return "E:" + e.elemTag(t) }
+// elemBase names the heap that holds the arrays with elements of type t.
+// Arrays of references are kept apart by element type: Go's type system (unsafe
+// aside) rules out that a []*T and a []U share an array.
+func (e *Eng) elemBase(t types.Type) string {
+	tag := e.elemTag(t)
+	if tag == "Ref" && t != nil {
+		u := types.Unalias(t)
+		if _, isTP := u.(*types.TypeParam); !isTP {
+			tag = "Ref~" + sanitize(types.TypeString(u, func(p *types.Package) string { return p.Name() }))
+		}
+	}
+	return "E:" + tag
+}
 
 func fieldID(f *types.Var) string {
 	f = f.Origin()
